@@ -7,7 +7,7 @@
     it is checked per run against the reference semantics in
     harness/gen_wt.py on generated libraries and pages. *)
 From Coq Require Import List NArith Bool Arith.
-From WTP Require Import Base.Str Model.ArgViews Model.Expand Proofs.ExpandProofs.
+From WTP Require Import Base.Str Model.ArgViews Model.Expand Proofs.ExpandProofs Model.Body Proofs.BodyProofs.
 Import ListNotations.
 Open Scope N_scope.
 
@@ -42,3 +42,14 @@ Theorem c04_newline_before_block_marker :
   forall e, add_newline e = if starts_block e then Ch 10 :: e else e.
 Proof. exact add_newline_spec. Qed.
 Print Assumptions c04_newline_before_block_marker.
+
+
+(* The part of a template page that is transcluded (Model/Body.v: the six passes of Wtp._template_to_body).
+   For EVERY arrangement of plain text, comments, noinclude and includeonly elements and onlyinclude elements
+   (themselves arrangements of the former), with texts free of angle brackets: if there is an onlyinclude
+   element only the contents of the onlyinclude elements count, otherwise everything outside them; of that,
+   comments and noinclude elements are dropped and includeonly elements are unwrapped. *)
+Theorem c04_includable_part :
+  forall segs, Forall seg_clean segs -> template_to_body (render segs) = includable segs.
+Proof. exact template_to_body_includable. Qed.
+Print Assumptions c04_includable_part.
